@@ -1487,6 +1487,10 @@ class LangServer:
             if key in file_obj.ast.global_dict:
                 self.obj_tree[key] = [file_obj.ast.global_dict[key], path]
                 return
+        # The unit may have shadowed an intrinsic module
+        for module in self.intrinsic_mods:
+            if module.FQSN == key:
+                self.obj_tree[key] = [module, None]
 
     def update_workspace_file(
         self,
